@@ -1,14 +1,17 @@
 (* Wire driver of unit C17: decodes one case, runs the host or the firmware LCD model.
 
-   case  (0 geom ops)   host model    -> (0 (status buf display backlight bright glyphs)...)   | (1 1) ctor raises
+   case  (0 geom ops)   host model (progress with the binary64 arithmetic of Host/LCDFloat.v: hstep_fl)
+                                      -> (0 (status buf display backlight bright glyphs)...)   | (1 1) ctor raises
          (1 geom ops)   device model  -> (0 init_events init_cells (accepted events cells bright blstate)...)
-         (2 value maxv width)         -> (0 hfilled dfilled)
+         (2 value maxv width)         -> (0 hfilled dfilled hfilled_fl ptie)
+         (4 num den)                  -> (0 num' den')   fl53 (num/den), den > 0, reduced
          (3 geom op)                  -> (0 fitsb op_guard)
    geom  (cols rows i2c blpin_opt)            opt = () | (x)
    op    (0 col row text clear align) | (1 row text align clear) | (2 top_opt bottom_opt ta ba clear)
          | (3) | (4 row value maxv width_opt style label) | (5 on) | (6 on) | (7 level) | (8 slot bitmap) *)
 From Coq Require Import ZArith List Bool.
-From RV Require Import Base.Wire Base.LcdBase Host.LCD Device.DLCD Device.LCDRefine.
+From Coq Require Import QArith.
+From RV Require Import Base.Wire Base.LcdBase Host.LCD Host.LCDFloat Device.DLCD Device.LCDRefine.
 Import ListNotations.
 Open Scope Z_scope.
 
@@ -70,7 +73,7 @@ Definition whost (h : hlcd) (r : hres) : wv :=
 Fixpoint host_trace (h : hlcd) (ops : list lop) : list wv :=
   match ops with
   | [] => []
-  | op :: r => let '(h', res) := hstep h op in whost h' res :: host_trace h' r
+  | op :: r => let '(h', res) := hstep_fl h op in whost h' res :: host_trace h' r
   end.
 
 Definition wev (e : dev_ev) : wv :=
@@ -121,7 +124,13 @@ Definition run (v : wv) : wv :=
       | _, _ => wbad
       end
   | WL [WI 2; WI value; WI maxv; WI width] =>
-      wok [WI (hfilled value maxv width); WI (dfilled value maxv width)]
+      wok [WI (hfilled value maxv width); WI (dfilled value maxv width);
+           WI (hfilled_fl value maxv width); wbool (ptie value maxv width)]
+  | WL [WI 4; WI num; WI den] =>
+      match den with
+      | Zpos d => let q := Qred (fl53 (num # d)) in wok [WI (Qnum q); WI (Zpos (Qden q))]
+      | _ => wbad
+      end
   | WL [WI 3; g; op] =>
       match un_geom g, un_op op with
       | Some g, Some op => wok [wbool (fitsb g); wbool (op_guard g op)]
